@@ -419,6 +419,12 @@ pub fn finish(ctx: &Ctx, stats: Stats, started: Instant) -> i32 {
     for (k, v) in &stats.extra {
         extra.put(k.clone(), v.clone());
     }
+    let (cli_runs, dribbled, one_cpu) = crate::util::cli_run_counters();
+    if cli_runs > 0 {
+        extra.put("cli_runs".to_string(), Json::Int(cli_runs as i128));
+        extra.put("cli_runs_with_stdin_in_small_chunks".to_string(), Json::Int(dribbled as i128));
+        extra.put("cli_runs_on_one_cpu".to_string(), Json::Int(one_cpu as i128));
+    }
     let j = Json::obj()
         .set("stage", Json::s(ctx.stage.clone()))
         .set("flavour", Json::s(ctx.flavour.clone()))
